@@ -111,13 +111,13 @@ def build(tier, seed):
     for n, (data, bad) in enumerate([(b"\x00\x05\x00\x01\xc3\xa9\x00", False), (b"\x00\x05\x00\x02\xff\x00", True)]):
         I.append(tmpl("utf8_%s_n%d" % ("bad" if bad else "ok", n), data, [], real_utf8=True, badutf8=bad))
     if tier == "thorough":
-        I.append(dec(3, 1, timeout=3600, mem_kb=20 * 1024 * 1024))
-        I.append(dec(3, 6, timeout=3600, mem_kb=20 * 1024 * 1024))
+        # 3-byte requests with one symbolic byte: did not finish in 600 s in quick; given 30 min / 20 GB here, "not explored" otherwise
+        I.append(dec(3, 1, timeout=1800, mem_kb=20 * 1024 * 1024))
+        I.append(dec(3, 6, timeout=1800, mem_kb=20 * 1024 * 1024))
         I.append(dec(8, 5))
         I.append(dec(9, 3, stable=True))
-        I.append(dec(5, 5, real_utf8=True, timeout=3600, mem_kb=20 * 1024 * 1024))
+        I.append(dec(5, 5, real_utf8=True, timeout=1800, mem_kb=20 * 1024 * 1024))
         I.append(tmpl("err", ERR, [4], real_utf8=True, timeout=1800, mem_kb=14 * 1024 * 1024))
-        I.append(tmpl("rrq", RRQ, [], real_utf8=True))
     return Check("C10", tier, I, seed, functions=FUNCS, assumptions=ASSUME,
                  explanation="Packet::deserialize: no panic / failed bounds check (totality), agreement with a reference decoder incl. all rejection cases, "
                              "and decode(encode(decode(x))) == decode(x) in the _stable instances")
